@@ -91,9 +91,16 @@ def nameFinish (ns : Nat) (acc : Bytes) (off rdl : Nat) : R NameRes :=
 
 /-- One call of rfc1035NameUnpack entered at the head of its do-while loop with `no = acc.length` bytes stored
 (`acc.length < ns` holds whenever the C code is there: `assert(ns > 0)` on entry, `no < ns` in the loop condition).
-The recursive call for a compression pointer gets `name + no`, `ns - no`, `rdepth + 1` and the same `rdlength` counter;
-its stores land behind `acc`. -/
-def nameLoop (buf : Bytes) : Nat → Nat → Nat → Nat → Bytes → Nat → R NameRes
+The recursive call for a compression pointer gets `name + no`, `ns - no`, `rdepth + 1`; its stores land behind `acc`.
+
+`fix` selects the code of the compression branch:
+* `true` — the code since /repo fd17dd6: the callee counts into a local `unsigned short sub = 0`; afterwards
+  `if (rdlength) *rdlength += sub; if (no && !sub) name[no - 1] = 0;` — when the pointer led to the root label only,
+  the '.' appended after the caller's last label is replaced by NUL;
+* `false` — the code before: `return rfc1035NameUnpack(.., rdlength, name + no, ns - no, rdepth + 1)`, the caller's
+  counter handed down, nothing stored afterwards.
+`Gen.DnsLimits.ptrRootDropsDot` (read from the staged source) says which one the tree has. -/
+def nameLoop (fix : Bool) (buf : Bytes) : Nat → Nat → Nat → Nat → Bytes → Nat → R NameRes
   | 0, _, _, _, _, _ => .fuel
   | fuel + 1, off, ns, rdepth, acc, rdl =>
     if off ≥ buf.length then .err
@@ -113,8 +120,13 @@ def nameLoop (buf : Bytes) : Nat → Nat → Nat → Nat → Bytes → Nat → R
               if ptr ≥ buf.length then .err
               else if ns - acc.length = 0 then .abort   -- assert(ns > 0) of the recursive call
               else
-                match nameLoop buf fuel ptr (ns - acc.length) (rdepth + 1) [] rdl with
-                | .ok r => .ok ⟨off + 2, r.rdl, acc ++ r.out⟩
+                match nameLoop fix buf fuel ptr (ns - acc.length) (rdepth + 1) [] (if fix then 0 else rdl) with
+                | .ok r =>
+                  if fix then
+                    -- *rdlength += sub; if (no && !sub) *(name + no - 1) = '\0';   (`sub` is an unsigned short)
+                    if acc.length ≠ 0 ∧ r.rdl % 65536 = 0 then .ok ⟨off + 2, rdl + r.rdl, acc.dropLast ++ [0] ++ r.out⟩
+                    else .ok ⟨off + 2, rdl + r.rdl, acc ++ r.out⟩
+                  else .ok ⟨off + 2, r.rdl, acc ++ r.out⟩
                 | .err => .err
                 | .oob => .oob
                 | .abort => .abort
@@ -131,17 +143,20 @@ def nameLoop (buf : Bytes) : Nat → Nat → Nat → Nat → Bytes → Nat → R
           else
             let acc' := acc ++ (buf.drop off1).take len ++ [46]
             -- while (c > 0 && no < ns)
-            if acc'.length < ns then nameLoop buf fuel (off1 + len) ns rdepth acc' (rdl + len + 1)
+            if acc'.length < ns then nameLoop fix buf fuel (off1 + len) ns rdepth acc' (rdl + len + 1)
             else nameFinish ns acc' (off1 + len) (rdl + len + 1)
 
 /-- iteration budget that always suffices (theorem `nameUnpack_never_fuel`): every label stores at least two bytes,
 every pointer increases `rdepth` -/
 def nameFuel (ns : Nat) : Nat := ns + maxRdepth + 2
 
-/-- `rfc1035NameUnpack(buf, sz, &off, &rdl, name, ns, 0)` with `rdl = 0` -/
-def nameUnpack (buf : Bytes) (off ns : Nat) : R NameRes :=
+/-- `rfc1035NameUnpack(buf, sz, &off, &rdl, name, ns, 0)` with `rdl = 0`, for either version of the compression branch -/
+def nameUnpackV (fix : Bool) (buf : Bytes) (off ns : Nat) : R NameRes :=
   if ns = 0 then .abort    -- assert(ns > 0)
-  else nameLoop buf (nameFuel ns) off ns 0 [] 0
+  else nameLoop fix buf (nameFuel ns) off ns 0 [] 0
+
+/-- the code of the staged tree -/
+def nameUnpack (buf : Bytes) (off ns : Nat) : R NameRes := nameUnpackV ptrRootDropsDot buf off ns
 
 /-- the C string a caller sees in a name buffer -/
 def cstr (b : Bytes) : Bytes := b.takeWhile (· ≠ 0)
@@ -149,7 +164,7 @@ def cstr (b : Bytes) : Bytes := b.takeWhile (· ≠ 0)
 /-! ### rfc1035QueryUnpack -/
 
 structure Query where
-  /-- bytes stored into `query->name` (NUL-terminated) -/
+  /-- the C string left in `query->name` -/
   name : Bytes
   qtype : Nat
   qclass : Nat
@@ -162,7 +177,7 @@ def queryUnpack (buf : Bytes) (off : Nat) : R (Query × Nat) :=
     if r.off + qFixedSz > buf.length then .err
     else
       match rd16 buf r.off, rd16 buf (r.off + 2) with
-      | some t, some c => .ok (⟨r.out, t, c⟩, r.off + 4)
+      | some t, some c => .ok (⟨cstr r.out, t, c⟩, r.off + 4)
       | _, _ => .oob
   | .err => .err
   | .oob => .oob
@@ -172,13 +187,13 @@ def queryUnpack (buf : Bytes) (off : Nat) : R (Query × Nat) :=
 /-! ### rfc1035RRUnpack -/
 
 structure RR where
-  /-- bytes stored into `RR->name` (NUL-terminated) -/
+  /-- the C string left in `RR->name` -/
   name : Bytes
   type : Nat
   cls : Nat
   ttl : Nat
   rdlength : Nat
-  /-- PTR: the bytes stored into the `RFC1035_MAXHOSTNAMESZ` rdata buffer (NUL-terminated); other types: the raw rdata -/
+  /-- PTR: the C string left in the `RFC1035_MAXHOSTNAMESZ` rdata buffer; other types: the raw rdata -/
   rdata : Bytes
   deriving Repr, DecidableEq
 
@@ -197,7 +212,7 @@ def rrUnpack (buf : Bytes) (off : Nat) : R (RR × Nat) :=
           match nameUnpack buf o10 nameBufSz with
           | .ok p =>
             if p.off > o10 + rdlength then .err       -- the name goes beyond the RDATA area
-            else if o10 + rdlength ≤ buf.length then .ok (⟨r.out, ty, cl, ttl, p.rdl % 65536, p.out⟩, o10 + rdlength)
+            else if o10 + rdlength ≤ buf.length then .ok (⟨cstr r.out, ty, cl, ttl, p.rdl % 65536, cstr p.out⟩, o10 + rdlength)
             else .abort
           | .err => .err
           | .oob => .oob
@@ -207,7 +222,7 @@ def rrUnpack (buf : Bytes) (off : Nat) : R (RR × Nat) :=
           -- memcpy(RR->rdata, buf + off, rdlength)
           if o10 + rdlength > buf.length then .oob
           else if o10 + rdlength ≤ buf.length then
-            .ok (⟨r.out, ty, cl, ttl, rdlength, (buf.drop o10).take rdlength⟩, o10 + rdlength)
+            .ok (⟨cstr r.out, ty, cl, ttl, rdlength, (buf.drop o10).take rdlength⟩, o10 + rdlength)
           else .abort                                  -- assert((*off) <= sz)
       | _, _, _, _ => .oob
   | .err => .err
